@@ -209,6 +209,15 @@ class Contract:
     def accessible(self, c):  # -> None (no memory-safety obligations) or {'read': pred, 'write': pred} with pred(st, addr, nbytes) -> Bool
         return None
 
+    loop_ordinal = None      # set: this is a loop-body contract for that loop of function `function`
+    function = None          # (name of the enclosing C function when it differs from `name`)
+
+    def post_break(self, c):          # loop-body contracts: obligations on paths leaving by `break`
+        return []
+
+    def post_goto(self, c, label):    # loop-body contracts: obligations on paths leaving by `goto label`
+        return []
+
     def allocates(self, c):  # -> [(addr, nbytes)] regions that are freshly allocated on return (c.result, c.new)
         return []
 
@@ -251,6 +260,13 @@ class Ctx:
 
     def local(self, st, name):
         return self.ex.local_value(st, name)
+
+    def global_value(self, st, name, bits=64):
+        """value of a scalar C global variable in state st"""
+        key = 'g:' + name
+        if key in st.ghost:
+            return st.ghost[key]
+        return self.ex.init_ghost.setdefault(key, z3.Const('G0_' + name, z3.BitVecSort(bits)))
 
     def valid(self, addr, n):
         """[addr, addr+n) is mapped memory (no wrap-around).  Regions named by a function's
@@ -524,7 +540,143 @@ class Exec:
                 hy.append(z3.Or(z3.UGE(g, a + BV((size + 15) // 16 * 16, 64)), z3.ULE(g + BV(4096, 64), a)))
         return hy
 
+    def run_loop_body(self, ordinal):
+        """Verify ONE iteration of the loop with the given ordinal (source order) of this function as a
+        unit of its own ("loop-body contract"): every parameter and local of the function is arbitrary,
+        the contract's pre(c) is assumed at the loop head together with the loop condition, the body (and
+        increment) is executed once, post(c) is checked.  Used for loops of functions that are too large to
+        bring under a whole-function contract; what surrounds the loop stays unverified (listed)."""
+        tu = self.tu
+        st = State()
+        st.raw = self.raw0 = z3.Array('RAW0', B64, B8)
+        st.err = self.err0 = z3.BitVec('ERR0', 64)
+        self.init_heaps, self.init_ghost, self.base_witness = {}, {}, {}
+        self.prescan(self.fn)
+        loops = []
+
+        def walk(x, in_loop_depth=0):
+            k = x.get('kind')
+            if k in ('WhileStmt', 'ForStmt') or (k == 'DoStmt' and self.const_value(x['inner'][1]) != 0):
+                loops.append(x)
+            for c in x.get('inner', []) or []:
+                if isinstance(c, dict):
+                    walk(c)
+        walk(self.fn)
+        if ordinal >= len(loops):
+            raise NotSupported("function %s has only %d loops" % (self.fname, len(loops)))
+        loop = loops[ordinal]
+        args = {}
+
+        def declare(d):
+            t = tu.ctype_of(d)
+            self.decl_types[d['id']] = t
+            if d['kind'] == 'ParmVarDecl':
+                self.params[d['name']] = d['id']
+            else:
+                self.locals_by_name[d['name']] = d['id']
+            if d.get('storageClass') == 'static':
+                self.static_locals = getattr(self, 'static_locals', {})
+                self.static_locals[d['id']] = d['name']
+                return
+            if t.kind in ('record', 'array') or d['id'] in self.addr_taken:
+                addr = self.new_stack(d['name'], t)
+                self.memlocals[d['id']] = (addr, t)
+                if t.kind not in ('record', 'array'):
+                    v = z3.Const('var_' + d['name'], sort_of(t))
+                    self.store(st, Loc('mem', t, addr), v)
+                    args.setdefault(d['name'], v)
+            else:
+                v = z3.Const('var_' + d['name'], sort_of(t))
+                st.env[d['id']] = v
+                args.setdefault(d['name'], v)
+
+        def decls(x):
+            if x.get('kind') in ('ParmVarDecl', 'VarDecl'):
+                declare(x)
+            for c in x.get('inner', []) or []:
+                if isinstance(c, dict) and x.get('kind') != 'VarDecl':
+                    decls(c)
+        decls(self.fn)
+        # names are resolved as at the loop: declarations of the enclosing blocks win (innermost last)
+        def path_to(x, target, acc):
+            if x is target:
+                return True
+            for c in x.get('inner', []) or []:
+                if isinstance(c, dict):
+                    acc.append(c)
+                    if path_to(c, target, acc):
+                        return True
+                    acc.pop()
+            return False
+        chain = []
+        path_to(self.fn, loop, chain)
+        for blk in chain:
+            if blk.get('kind') == 'CompoundStmt':
+                for s_ in blk.get('inner', []) or []:
+                    if s_.get('kind') == 'DeclStmt':
+                        for d in s_['inner']:
+                            if d.get('kind') == 'VarDecl' and d['id'] in self.decl_types:
+                                self.locals_by_name[d['name']] = d['id']
+                                if d['id'] in st.env:
+                                    args[d['name']] = st.env[d['id']]
+                                elif d['id'] in self.memlocals and self.decl_types[d['id']].kind not in ('record', 'array'):
+                                    a_, t_ = self.memlocals[d['id']]
+                                    args[d['name']] = self.load(st, Loc('mem', t_, a_))
+        self.args = args
+        self.st0 = st.copy()
+        c0 = Ctx(self, args, self.st0)
+        self.c0 = c0
+        self.collecting_regions = True
+        self.callers_pre = []
+        for label, p, extra in _norm(self.contract.pre(c0)):
+            st.assume(p)
+        self.collecting_regions = False
+        for k, h in self.st0.fh.items():
+            st.fh.setdefault(k, h)
+        init, cond, inc, body = self.loop_parts(loop)
+        if cond:
+            st.assume(truth(self.ev(cond, st)))
+        self.pre_pc = list(st.pc)
+        self.base_witness = dict(self.contract.witness(c0))
+        acc = self.contract.accessible(c0)
+        if acc is not None:
+            self.access_regions = acc
+        ctl = {'breaks': [], 'continues': [], 'loop': True}
+        self.ctlstack.append(ctl)
+        end = self.exec_stmt(body, st)
+        self.ctlstack.pop()
+        cur = merge_states([end] + ctl['continues'])
+        line = line_of(loop)
+        if cur is not None:
+            if inc:
+                self.ev(inc, cur, want=False)
+            c = Ctx(self, args, self.st0, cur)
+            for label, g, extra in _norm(self.contract.post(c)):
+                self.ob('loop-body', line, label, cur, g, hyps_extra=extra or ())
+            self.returns.append((cur, None, 'L%s-next-iteration' % line))
+        for k, bst in enumerate(ctl['breaks']):
+            c = Ctx(self, args, self.st0, bst)
+            for label, g, extra in _norm(self.contract.post_break(c)):
+                self.ob('loop-body', line, 'break: ' + label, bst, g, hyps_extra=extra or ())
+            self.returns.append((bst, None, 'L%s-break' % line))
+        for (rst, rval, rline) in list(self.returns):
+            if isinstance(rline, str) and rline.startswith('L'):
+                continue
+        for label, states in self.gotos.items():
+            for gst in states:
+                c = Ctx(self, args, self.st0, gst)
+                for lab, g, extra in _norm(self.contract.post_goto(c, label)):
+                    self.ob('loop-body', line, 'goto %s: %s' % (label, lab), gst, g, hyps_extra=extra or ())
+                self.returns.append((gst, None, 'L%s-goto-%s' % (line, label)))
+        self.gotos = {}
+        self.global_hyps[:] = self.finish_hyps()
+        for o in self.obs:
+            o.hyps = list(self.global_hyps) + o.hyps
+        return self.obs
+
     def run(self):
+        if getattr(self.contract, 'loop_ordinal', None) is not None:
+            return self.run_loop_body(self.contract.loop_ordinal)
         tu = self.tu
         body = None
         st = State()
